@@ -233,6 +233,31 @@ def helper_cardinalities():
     return out
 
 
+def resolve_shape():
+    """for each request keyword: is its entry in ServiceStub.__resolve_request_kwargs literally
+    `self.<k> if <k> is None else <k>` ?"""
+    import betterproto.grpc.grpclib_client as gc
+    with open(gc.__file__) as f:
+        tree = ast.parse(f.read())
+    out = []
+    for node in ast.walk(tree):
+        if isinstance(node, ast.FunctionDef) and node.name == "__resolve_request_kwargs":
+            params = [a.arg for a in node.args.args[1:]]
+            ret = [s for s in node.body if isinstance(s, ast.Return)]
+            entries = {}
+            if ret and isinstance(ret[0].value, ast.Dict):
+                for k, v in zip(ret[0].value.keys, ret[0].value.values):
+                    key = dotted(k)
+                    ok = (isinstance(v, ast.IfExp) and dotted(v.body) == "self." + key and dotted(v.orelse) == key
+                          and isinstance(v.test, ast.Compare) and dotted(v.test.left) == key and len(v.test.ops) == 1
+                          and isinstance(v.test.ops[0], ast.Is) and isinstance(v.test.comparators[0], ast.Constant)
+                          and v.test.comparators[0].value is None)
+                    entries[key] = ok
+            for k in ("timeout", "deadline", "metadata"):
+                out.append((k, bool(entries.get(k)) and k in params and len(entries) == 3))
+    return out
+
+
 def lean_str(s):
     return '"' + s.replace("\\", "\\\\").replace('"', '\\"') + '"'
 
@@ -273,6 +298,9 @@ def render(rows, problems, stamp):
     out.append("/-- grpclib_client.ServiceStub: (helper, Cardinality it passes to channel.request, forwards the resolved kwargs) -/")
     out.append("def helperCardinality : List (String × String × Bool) := ["
                + ", ".join("(%s, %s, %s)" % (lean_str(h), lean_str(c), "true" if k else "false") for h, c, k in helper_cardinalities()) + "]")
+    out.append("/-- ServiceStub.__resolve_request_kwargs: (keyword, its entry is `self.k if k is None else k`) -/")
+    out.append("def resolveShape : List (String × Bool) := ["
+               + ", ".join("(%s, %s)" % (lean_str(k), "true" if ok else "false") for k, ok in resolve_shape()) + "]")
     out.append("def stubOptionSets : List String := [" + ", ".join(lean_str(l) for l, _ in OPTION_SETS) + "]")
     out.append("")
     for p in problems:
